@@ -33,6 +33,9 @@ def arg_structs():
         st.lists(ch, min_size=0, max_size=3).map(lambda l: ["list", l]),
         st.lists(ch, min_size=1, max_size=3).map(lambda l: ["tuple", l]),
         st.lists(ch, min_size=0, max_size=3).map(lambda l: ["dict", l]),
+        # dicts whose KEYS are numbers or tuples of numbers (sparse vectors {2: 7, 5: 1}, grids {(0, 1): 9}): keys are not arguments
+        st.lists(ch, min_size=1, max_size=3).map(lambda l: ["idict", l]),
+        st.lists(ch, min_size=1, max_size=2).map(lambda l: ["tdict", l]),
         # subclasses of the three container types (namedtuple, OrderedDict, a user list class) are containers too
         st.lists(ch, min_size=1, max_size=3).map(lambda l: ["ntuple", l]),
         st.lists(ch, min_size=0, max_size=3).map(lambda l: ["odict", l]),
@@ -82,7 +85,13 @@ def build_arg(s):
         return [build_arg(s[1])] * s[2]
     if t == "same":
         raise ValueError("resolved by build_args")
+    if t in ("idict", "tdict"):
+        return {dict_key(t, i): build_arg(x) for i, x in enumerate(s[1])}
     return {"k%d" % i: build_arg(x) for i, x in enumerate(s[1])}
+
+
+def dict_key(t, i):
+    return 2 + 3 * i if t == "idict" else (i, 1.5) if i % 2 else (i, True)
 
 
 def build_args(structs):
@@ -106,9 +115,9 @@ def numeric_leaves(s, path=()):
     t = s[0]
     if t in ("int", "float", "bool"):
         yield path, t, s[1]
-    elif t in ("list", "tuple", "dict", "ntuple", "odict", "dlist"):
+    elif t in ("list", "tuple", "dict", "ntuple", "odict", "dlist", "idict", "tdict"):
         for i, x in enumerate(s[1]):
-            yield from numeric_leaves(x, path + (("k%d" % i) if t in ("dict", "odict") else i,))
+            yield from numeric_leaves(x, path + (dict_key(t, i) if t in ("idict", "tdict") else ("k%d" % i) if t in ("dict", "odict") else i,))
     elif t == "rep":
         for i in range(s[2]):
             yield from numeric_leaves(s[1], path + (i,))
@@ -117,7 +126,7 @@ def numeric_leaves(s, path=()):
 def fetch(args, path):
     x = args
     for k in path:
-        x = x[k]
+        x = x[tuple(k) if isinstance(k, list) else k]
     return x
 
 
@@ -389,7 +398,7 @@ def shard(seed, n_examples):
             args = draw(st.lists(arg_structs(), min_size=0, max_size=3))
             if args and draw(st.integers(0, 3)) == 0:
                 j = draw(st.integers(0, len(args) - 1))
-                if args[j][0] in ("list", "tuple", "dict", "rep", "ntuple", "odict", "dlist"):
+                if args[j][0] in ("list", "tuple", "dict", "rep", "ntuple", "odict", "dlist", "idict", "tdict"):
                     args.insert(draw(st.integers(j + 1, len(args))), ["same", j])          # f(v, v)
             leaves = list(numeric_leaves(["tuple", resolve_same(args)]))
             calls.append({"args": args, "result": draw_result(draw, leaves), "kwargs": draw(st.integers(0, 9)) == 0,
